@@ -296,6 +296,9 @@ class DRFNet(BayesianNetwork):
         """
         # Checks inputs
         super().sample(n)
+        # Set random state (if requested): the forests draw their
+        # samples from numpy's global generator
+        np.random.seed(random_state) if random_state is not None else None
         # Set sample sizes
         if n is None:
             n = self.Ns
